@@ -163,10 +163,9 @@ def run(chk):
                 "scenario")
     chk.assumptions = ["real signature schemes idealised as symbolic in the model; Key::verify itself exercised "
                        "only by this correspondence run (corrupted, wrong content, wrong key, three algorithms)"]
-    if THEOREMS:
-        chk.proof, fails = C.proof_gate("C01", THEOREMS)
-        for f in fails:
-            chk.broken(f, {"theorem_gate": f})
+    chk.proof, fails = C.proof_gate("C01")
+    for f in fails:
+        chk.broken(f, {"theorem_gate": f})
     C.ensure_harness()
     specs = gen(chk)
     built = [build(chk.rng, *p) for p in specs]
